@@ -31,6 +31,7 @@ type Obligation struct {
 	queryFile string
 	batch     bool
 	pins      []string // extra constraints fixing a concretised model
+	weakened  bool     // queryFile is the variant without quantified assumptions
 	QueryKB int
 	ctx     *FnCtx
 }
@@ -109,6 +110,8 @@ type FnCtx struct {
 	resultVals   []Val
 	exitState    *State
 	atoms        map[string]string
+	strSrc       map[string][3]string // string made from bytes: row, offset, length
+	litText      map[string]string    // string literal constant -> its text
 	bounded      int // > 0: bounded stand-in run, loops explored up to this many iterations
 }
 
@@ -623,6 +626,10 @@ func (c *FnCtx) strLit(s string) string {
 		}
 	}
 	c.strLits[s] = n
+	if c.litText == nil {
+		c.litText = map[string]string{}
+	}
+	c.litText[n] = s
 	return n
 }
 
